@@ -249,7 +249,41 @@ def crash_images(data, log, tier):
     return imgs
 
 
+def two_writer_images(log, max_switches):
+    """Two processes store the SAME entry concurrently (np.savez opens the final path with truncation and writes in
+    place).  Each writer's program is [open+truncate, write_1, ..., write_n]; a schedule with <= max_switches context
+    switches is A[0:i] B[0:j] (A[i:k]) followed by a crash of both.  Returns the distinct resulting file images as
+    (i, j, k) triples - the image itself is rebuilt from the triple."""
+    n = len(log) + 1  # op 0 = open/truncate
+    seen = {}
+    for i in range(0, n + 1):
+        for j in range(0, n + 1):
+            ks = range(i, n + 1) if max_switches >= 2 else (i,)
+            for k in ks:
+                img = bytes(_simulate(log, [("A", 0, i), ("B", 0, j), ("A", i, k)]))
+                if img not in seen:
+                    seen[img] = (i, j, k)
+    return sorted(seen.values())
+
+
+def _simulate(log, segments):
+    img = bytearray()
+    for _, lo, hi in segments:
+        for op in range(lo, hi):
+            if op == 0:
+                img = bytearray()  # open(path, "wb") truncates
+            else:
+                _, off, b = log[op - 1]
+                if off > len(img):
+                    img.extend(b"\0" * (off - len(img)))
+                img[off:off + len(b)] = b
+    return img
+
+
 def build_image(kind, arg, data, log):
+    if kind == "two-writers":
+        i, j, k = arg
+        return bytes(_simulate(log, [("A", 0, i), ("B", 0, j), ("A", i, k)]))
     if kind == "byte-prefix":
         return data[:arg]
     if kind == "writelog-prefix":
@@ -333,7 +367,7 @@ def run(ctx):
         for k in range(len(c["hist"]) + 1):
             states.add(frozenset(n for n in c["hist"][:k] if n != "dispersion"))
     # crash images
-    probe = core.forked_map(__name__, "case_probe_put", [{}], ctx.tmp_root)[0]
+    probe = core.forked_map(__name__, "case_probe_put", [{"max_switches": 2}], ctx.tmp_root)[0]
     if "harness_error" in probe:
         raise core.HarnessError(probe["harness_error"])
     nbytes, nops = probe["obs"]["entry_bytes"], probe["obs"]["write_ops"]
@@ -344,6 +378,10 @@ def run(ctx):
         step = max(1, len(args) // 48)
         for i in range(0, len(args), step):
             chunks.append({"kind": kind, "args": args[i:i + step]})
+    tw = [list(t) for t in probe["obs"]["two_writer_triples"]]
+    step = max(1, len(tw) // 64)
+    for i in range(0, len(tw), step):
+        chunks.append({"kind": "two-writers", "args": tw[i:i + step]})
     rc = ctx.run_cases(case_crash, chunks, sub="crash-images", chunksize=1)
     nimg = int(sum(r.get("obs", {}).get("images", 0) for r in rc))
     ctx.cov.update({
@@ -358,6 +396,8 @@ def run(ctx):
         "crash_entry_bytes": nbytes,
         "crash_write_log_ops": nops,
         "crash_blocks": (nbytes + 511) // 512,
+        "two_writer_distinct_images": len(tw),
+        "two_writer_context_switch_bound": 2,
     })
     ctx.rule = (
         "histories: all sequences of length <= %d over the %d-request alphabet (triples restricted to those containing R0 or a repeated request) x sharing patterns; "
@@ -369,4 +409,5 @@ def run(ctx):
 def case_probe_put(case):
     cdir, path, data, log = record_put()
     shutil.rmtree(cdir, ignore_errors=True)
-    return {"v": [], "obs": {"entry_bytes": len(data), "write_ops": len(log)}}
+    tw = two_writer_images(log, case.get("max_switches", 1))
+    return {"v": [], "obs": {"entry_bytes": len(data), "write_ops": len(log), "two_writer_triples": tw}}
